@@ -315,6 +315,30 @@ class Messages(Family):
             b2 = MsgSerializable.from_bytes(got)
         if model_of_msg(b2) != norm(m):
             raise Viol('from_bytes(%s frame) has different field values' % t, None, None)
+        # the optional protocol-version argument: a message built for protocol version pv, framed, and parsed with the same
+        # pv (both entry points) is the same message again and re-frames byte-identically (self-consistency only: which
+        # fields an old protocol version carries is left to the library)
+        for pv in (209, 31402, 60000, 60001, 60002, 70001):
+            o = type(msg)(protover=pv)
+            for k, v in vars(msg).items():
+                if k != 'protover':
+                    setattr(o, k, v)
+            fr = o.to_bytes()
+            for how in ('from_bytes', 'stream_deserialize'):
+                with _Quiet():
+                    if how == 'from_bytes':
+                        b3 = MsgSerializable.from_bytes(fr, protover=pv)
+                        used = len(fr)
+                    else:
+                        f3 = io.BytesIO(fr + b'TRAILER')
+                        b3 = MsgSerializable.stream_deserialize(f3, protover=pv)
+                        used = f3.tell()
+                if b3 is None or b3.command != t.encode() or used != len(fr):
+                    raise Viol('%s(%s frame, protover=%d) returned %r after %d of %d bytes' % (how, t, pv, b3, used, len(fr)), t, None)
+                if b3.to_bytes() != fr:
+                    raise Viol('a %s message built for protocol version %d, framed and parsed with %s(protover=%d) re-frames differently' % (t, pv, how, pv), fr.hex()[:200], b3.to_bytes().hex()[:200])
+                if fr == got and model_of_msg(b3) != norm(m):
+                    raise Viol('%s(%s frame, protover=%d) has different field values' % (how, t, pv), norm(m), model_of_msg(b3))
         if sel:
             # frame . edit the SAME message object . frame: every field is given the base message's value by assignment on
             # the object that was just framed, then the deviating values again
